@@ -162,7 +162,23 @@ func c06policy(r *gen.R) *model.Policy {
 		k := mon.Pick(r, []string{"a", "b", "n", "s", "set", "rec"})
 		lit := g.LitExpr(gen.RandVal(r, 1))
 		var body *model.Expr
-		switch r.Intn(10) {
+		part := model.Var(mon.Pick(r, []string{"principal", "action", "resource"}))
+		u, v2 := gen.RandUID(r), gen.RandUID(r)
+		switch r.Intn(16) {
+		case 10:
+			// an operand that may be unknown before an operand that may be ignored, in one strict node
+			body = model.Bin(mon.Pick(r, []model.Op{model.OEq, model.ONe}), model.Access(ctx, k), part)
+		case 11:
+			body = model.Bin(model.OContains, model.SetE(model.Access(ctx, k), part, lit), mon.Pick(r, []*model.Expr{part, lit}))
+		case 12:
+			body = model.Bin(model.OEq, model.RecE([]string{"x", "y"}, []*model.Expr{model.Access(ctx, k), part}), model.RecE([]string{"x", "y"}, []*model.Expr{lit, model.Lit(u)}))
+		case 13:
+			// `is T in` / `in` in a condition with both operands known while something else is unknown
+			body = model.Bin(model.OAnd, model.IsIn(model.Lit(u), u.T, model.Lit(v2)), model.Bin(model.OEq, model.Access(ctx, k), lit))
+		case 14:
+			body = model.Bin(model.OOr, model.IsIn(part, mon.Pick(r, gen.EntityTypes[:3]), model.Lit(v2)), model.Bin(model.OEq, model.Access(ctx, k), lit))
+		case 15:
+			body = model.Bin(model.OAnd, model.Bin(model.OIn, model.Lit(u), model.SetE(model.Lit(v2), part)), model.Bin(model.ONe, model.Access(ctx, k), lit))
 		case 0:
 			body = model.Bin(model.OEq, ctx, model.RecE([]string{k}, []*model.Expr{lit}))
 		case 1:
@@ -204,6 +220,8 @@ func C06(c *mon.Ctx) {
 		var m gen.Mentions
 		gen.CollectPolicy(&m, mp)
 		base := gen.EnvFor(r, &m, r.P(0.2))
+		// let context values and completions coincide with the request's own entities now and then
+		m.Vals = append(m.Vals, base.P, base.A, base.R, base.P)
 		base.Ctx = contextFor(r, &m)
 		t := &c06template{P: base.P, A: base.A, R: base.R, Ctx: base.Ctx, Vars: map[string][]model.Val{}, Ignored: map[string]bool{}}
 		orig := map[string]model.Val{}
@@ -278,6 +296,15 @@ func C06(c *mon.Ctx) {
 			}
 			t.Vars[name] = cands
 		}
+		c06run(w, r, i, mp, &m, base, t, orig, used)
+	})
+	c06directed(c)
+}
+
+// c06run runs the partial evaluator on (mp, t) and checks every completion.
+func c06run(w *mon.W, r *gen.R, i int, mp *model.Policy, mm *gen.Mentions, base *model.Env, t *c06template, orig map[string]model.Val, used map[string]bool) {
+	m := *mm
+	{
 		// run the partial evaluator
 		penv := &model.Env{P: t.P, A: t.A, R: t.R, Ctx: t.Ctx, Store: base.Store}
 		ents := bridge.ToEntityMap(base)
@@ -430,6 +457,136 @@ func C06(c *mon.Ctx) {
 		if i%1000 == 0 {
 			w.Sample("case", map[string]any{"policy": render.CanonPolicy(mp), "partial_env": t.describe(), "keep": keep})
 		}
+	}
+}
+
+// c06directed enumerates small strict nodes that combine an operand that is unknown with an
+// operand that is ignored (in both orders), for permit/forbid x when/unless, over a 3-entity
+// universe - the shapes where unknown- and ignore-handling interact inside one node.
+func c06directed(c *mon.Ctx) {
+	X, Y, Z := model.Ent("U", "a"), model.Ent("U", "b"), model.Ent("G", "a")
+	ents := []model.Val{X, Y, Z}
+	ctx := model.Var("context")
+	unk := []*model.Expr{model.Access(ctx, "k"), model.Var("action")}                                           // may be unknown
+	ign := []*model.Expr{model.Var("principal"), model.Var("resource"), model.Access(ctx, "j")}                  // may be ignored
+	type shape struct {
+		name string
+		mk   func(a, b *model.Expr) *model.Expr
+	}
+	lx := model.Lit(X)
+	shapes := []shape{
+		{"a == b", func(a, b *model.Expr) *model.Expr { return model.Bin(model.OEq, a, b) }},
+		{"a != b", func(a, b *model.Expr) *model.Expr { return model.Bin(model.ONe, a, b) }},
+		{"[a, b].contains(X)", func(a, b *model.Expr) *model.Expr { return model.Bin(model.OContains, model.SetE(a, b), lx) }},
+		{"{x: a, y: b} == {x: X, y: X}", func(a, b *model.Expr) *model.Expr {
+			return model.Bin(model.OEq, model.RecE([]string{"x", "y"}, []*model.Expr{a, b}), model.RecE([]string{"x", "y"}, []*model.Expr{lx, lx}))
+		}},
+		{"a in b", func(a, b *model.Expr) *model.Expr { return model.Bin(model.OIn, a, b) }},
+		{"a in [b, X]", func(a, b *model.Expr) *model.Expr { return model.Bin(model.OIn, a, model.SetE(b, lx)) }},
+		{"a is U in b", func(a, b *model.Expr) *model.Expr { return model.IsIn(a, "U", b) }},
+		{"a == b && true", func(a, b *model.Expr) *model.Expr { return model.Bin(model.OAnd, model.Bin(model.OEq, a, b), model.Lit(model.Bool(true))) }},
+		{"a == X || b == X", func(a, b *model.Expr) *model.Expr { return model.Bin(model.OOr, model.Bin(model.OEq, a, lx), model.Bin(model.OEq, b, lx)) }},
+		{"if a == X then b == X else true", func(a, b *model.Expr) *model.Expr {
+			return model.If(model.Bin(model.OEq, a, lx), model.Bin(model.OEq, b, lx), model.Lit(model.Bool(true)))
+		}},
+		{"[a].containsAll([b])", func(a, b *model.Expr) *model.Expr { return model.Bin(model.OContainsAll, model.SetE(a), model.SetE(b)) }},
+	}
+	type dcase struct {
+		sh            shape
+		a, b          *model.Expr
+		swap          bool
+		permit, when  bool
+		mode          int // 0: a unknown, b ignored; 1: a unknown, b known; 2: a known, b ignored; 3: both unknown
+	}
+	var cases []dcase
+	for _, sh := range shapes {
+		for _, a := range unk {
+			for _, b := range ign {
+				for _, swap := range []bool{false, true} {
+					for _, permit := range []bool{true, false} {
+						for _, when := range []bool{true, false} {
+							for mode := 0; mode < 4; mode++ {
+								cases = append(cases, dcase{sh, a, b, swap, permit, when, mode})
+							}
+						}
+					}
+				}
+			}
+		}
+	}
+	c.Extra["directed_unknown_x_ignore_cases"] = len(cases)
+	c.ParFor("directed", len(cases), func(w *mon.W, i int) {
+		d := cases[i]
+		r := w.Rand()
+		a, b := d.a, d.b
+		body := d.sh.mk(a, b)
+		if d.swap {
+			body = d.sh.mk(b, a)
+		}
+		mp := &model.Policy{Permit: d.permit, Conds: []model.Cond{{When: d.when, Body: body}}}
+		base := &model.Env{P: X, A: X, R: X, Ctx: model.Rec("k", X, "j", X), Store: map[string]*model.Entity{}}
+		base.Store[X.Key()] = &model.Entity{UID: X, Parents: []model.Val{Z}, Attrs: model.Rec(), Tags: model.Rec()}
+		base.Store[Y.Key()] = &model.Entity{UID: Y, Attrs: model.Rec(), Tags: model.Rec()}
+		t := &c06template{P: X, A: X, R: X, Ctx: base.Ctx, Vars: map[string][]model.Val{}, Ignored: map[string]bool{}}
+		orig := map[string]model.Val{}
+		used := map[string]bool{}
+		ctxK, ctxJ := X, X
+		setUnknown := func(e *model.Expr, name string) {
+			switch {
+			case e.Op == model.OVar:
+				switch e.S {
+				case "action":
+					t.A = mvar(name)
+				case "principal":
+					t.P = mvar(name)
+				case "resource":
+					t.R = mvar(name)
+				}
+			case e.S == "k":
+				ctxK = mvar(name)
+			default:
+				ctxJ = mvar(name)
+			}
+			t.Vars[name] = ents
+			orig[name] = X
+			used[name] = true
+		}
+		setIgnored := func(e *model.Expr) bool {
+			if e.Op != model.OVar {
+				return false // only whole request parts can be ignored (property statement)
+			}
+			t.Ignored[e.S] = true
+			orig["~"+e.S] = X
+			switch e.S {
+			case "principal":
+				t.P = mignore()
+			case "resource":
+				t.R = mignore()
+			}
+			return true
+		}
+		switch d.mode {
+		case 0:
+			setUnknown(a, "ua")
+			if !setIgnored(b) {
+				return
+			}
+		case 1:
+			setUnknown(a, "ua")
+		case 2:
+			if !setIgnored(b) {
+				return
+			}
+		default:
+			setUnknown(a, "ua")
+			setUnknown(b, "ub")
+		}
+		t.Ctx = model.Rec("k", ctxK, "j", ctxJ)
+		var m gen.Mentions
+		gen.CollectPolicy(&m, mp)
+		m.Ents = append(m.Ents, ents...)
+		w.Count("directed shape " + d.sh.name)
+		c06run(w, r, i+1, mp, &m, base, t, orig, used)
 	})
 }
 
